@@ -250,7 +250,10 @@ class Body:
                 continue
             for n, st in enumerate(x["stmts"]):
                 if st["k"] == "assign":
-                    self.defs[st["lhs"]["l"]].append((i, n, bool(st["lhs"]["p"])))
+                    pr = st["lhs"]["p"]
+                    if pr and pr[0]["k"] == "deref" and self.ltypes.get(st["lhs"]["l"], "").startswith("&"):
+                        continue        # a store THROUGH a reference local writes memory; the local keeps its value
+                    self.defs[st["lhs"]["l"]].append((i, n, bool(pr)))
             t = x["term"]
             if t["k"] == "call":
                 self.defs[t["dest"]["l"]].append((i, "term", bool(t["dest"]["p"])))
